@@ -442,7 +442,8 @@ func (self *Analyzer) functionLiteral(node pAst.FunctionLiteralExpression) ast.A
 
 	fnReturntype := self.ConvertType(node.ReturnType, true)
 
-	// set current function
+	// set current function (the enclosing function is restored after the body)
+	prevFunction := self.currentModule.CurrentFunction
 	moduleFn := newFunction(
 		node.Span(),
 		newLambdaFunction(),
@@ -469,6 +470,8 @@ func (self *Analyzer) functionLiteral(node pAst.FunctionLiteralExpression) ast.A
 	}
 
 	self.dropScope(true)
+
+	self.currentModule.CurrentFunction = prevFunction
 
 	return ast.AnalyzedFunctionLiteralExpression{
 		Parameters: newParams,
